@@ -33,3 +33,31 @@ Example C16_example :
   route_served (lit "/../secret.txt") = None /\ route_served (lit "/sub/../index.html") = Some (lit "index.html") /\
   route_served (lit "//abs/secret.txt") = None /\ route_name (lit "//abs/secret.txt") = lit "/abs/secret.txt".
 Proof. vm_compute. repeat split. Qed.
+
+(* ---- tie to the source by proof: the handler returned by StaticDirectoryHandler (Echo.Static, Group.Static, StaticFS),
+   translated statement by statement from echo_fs.go on every run (Gen/Src_staticdir.v, language Base/GoLoop.v).  For every
+   wildcard value p, URL path, unescaper, file system (as its Stat answers) and sanitizeURI: an unescapable value is an error
+   before the file system is touched; otherwise the ONE name handed to the file system - to fs.Stat and to the serving
+   function alike - is [route_name] of the unescaped value, i.e. Clean(TrimPrefix(p, "/")), the name the containment theorem
+   above is about; a name that cannot be stat'ed is 404 and nothing is served; a directory whose URL lacks the trailing slash
+   is redirected (301) to sanitizeURI(path + "/") instead of being served *)
+From Coq Require Import String ZArith.
+From Echo Require Import Base.GoLoop Gen.Src_staticdir Mw.StaticDirSrc.
+
+Theorem C16_source_static_dir_handler : forall unescape stat sanitize p urlpath,
+  let '(st', ret) := GoLoop.run (ssym p urlpath) (spred unescape stat sanitize) src_static_dir_handler_results src_static_dir_handler StaticDirSrc.start in
+  match unescape p with
+  | None => events st' = [("url.PathUnescape"%string, [VS p])] /\ ret = [VZ 500]
+  | Some q =>
+      let name := route_name q in
+      let seen := [("url.PathUnescape"%string, [VS p]); ("fs.Stat"%string, [VZ 0; VS name])] in
+      match stat name with
+      | None => events st' = seen /\ ret = [VZ 404]
+      | Some isdir =>
+          if isdir && no_trailing_slash urlpath
+          then events st' = (seen ++ [("c.Redirect"%string, [VZ 301; VS (sanitize (urlpath ++ lit "/"))])])%list /\ ret = [VZ 301]
+          else events st' = (seen ++ [("fsFile"%string, [VZ 0; VS name; VZ 0])])%list /\ ret = [VZ 200]
+      end
+  end.
+Proof. exact src_static_dir_handler_spec. Qed.
+Print Assumptions C16_source_static_dir_handler.
